@@ -92,6 +92,10 @@ var special = []string{
 	`permit (principal, action, resource) when { context.b.a == [principal, User::"a"] };`,
 	`permit (principal, action, resource) when { [context.a, 1] == [1] };`,
 	`permit (principal, action, resource) when { ip(context.a).isLoopback() };`,
+	`permit (principal, action, resource) when { if context.a then true else true };`,
+	`permit (principal, action, resource) when { (if context.b.a == 1 then "x" else "x") == "x" };`,
+	`forbid (principal, action, resource) unless { if principal in context.a then 1 == 1 else 2 == 2 };`,
+	`permit (principal, action, resource) when { (context.a || true) && (context.b && false) == false };`,
 	`permit (principal, action, resource) when { context has a && context has b && context.a == context.b };`,
 	`forbid (principal, action, resource) when { context.b has a && context.b.a like "a*" };`,
 	`permit (principal, action, resource) when { (if context.a then 1 else "x") + 1 == 2 };`,
@@ -202,7 +206,7 @@ func genScenario(r *core.Run) *scenario {
 		case 0, 1:
 			return g.Value(1)
 		case 2, 3:
-			return batch.Variable(types.String([]string{"c", "d", "p", "c"}[r.T.Intn(4)]))
+			return batch.Variable(types.String([]string{"c", "d", "p", "c", ""}[r.T.Intn(5)]))
 		case 4:
 			if depth <= 0 {
 				return g.Value(0)
@@ -241,6 +245,7 @@ func genScenario(r *core.Run) *scenario {
 		req.Context = batch.Variable("x")
 	}
 	pool["x"] = true
+	pool[""] = true // the empty name is a legal variable name
 	found := map[types.String]bool{}
 	varsIn(req.Principal, pool, found)
 	varsIn(req.Action, pool, found)
